@@ -225,19 +225,23 @@ with_nocipher!(c23_s_v5_n, 5, |c| {
     assert!(h == REJ, "a v5 header without draft identification is refused");
     kani::cover!(h == REJ, "reached");
 });
-with_nocipher!(c23_s_v5_badmode_n, 5, |c| {
-    let x = short::<56, _>(0x28, Some((0, 0, 1)), 48, c);
-    let y = short::<56, _>(0x2F, Some((0, 0, 1)), 52, c);
-    assert!(x == REJ && y == REJ, "v5 modes other than 3/4 are refused");
-    kani::cover!(x == REJ, "reached");
-});
-with_nocipher!(c23_s_v5_badctl_n, 5, |c| {
-    let ts = short::<56, _>(V5Q, Some((4, 0, 1)), 48, c);
-    let f0 = short::<56, _>(V5R, Some((0, 1, 0)), 48, c);
-    let f1 = short::<56, _>(V5R, Some((3, 0, 8)), 48, c);
-    assert!(ts == REJ && f0 == REJ && f1 == REJ, "unknown timescale / reserved flag bits are refused");
-    kani::cover!(ts == REJ, "reached");
-});
+// NTPv5 header validation errors, one image per harness: after an early `return Err` of the header
+// parser the merged value hides the constant header size and the whole field parser is explored on
+// symbolic offsets (infeasible paths), ~10 min of symbolic execution per image.
+macro_rules! v5_bad_header {
+    ($n:ident, $b0:expr, $ctl:expr, $len:expr) => {
+        with_nocipher!($n, 5, |c| {
+            let x = short::<56, _>($b0, Some($ctl), $len, c);
+            assert!(x == REJ, "invalid NTPv5 header refused");
+            kani::cover!(x == REJ, "reached");
+        });
+    };
+}
+v5_bad_header!(c23_s_v5_mode0_n, 0x28, (0, 0, 1), 48);
+v5_bad_header!(c23_s_v5_mode7_n, 0x2F, (0, 0, 1), 52);
+v5_bad_header!(c23_s_v5_timescale_n, V5Q, (4, 0, 1), 48);
+v5_bad_header!(c23_s_v5_flags0_n, V5R, (0, 1, 0), 48);
+v5_bad_header!(c23_s_v5_flags1_n, V5R, (3, 0, 8), 48);
 
 // ================================================================== NTPv4, no keys
 // RFC 7822: fields are parsed only while more than 24 bytes remain; the rest (4..=24 bytes) is a MAC.
